@@ -2,7 +2,7 @@
 import re
 
 from ..facts import AnalysisGap
-from .. import hq, peval, prec, printers, sym, tff
+from .. import collect, hq, peval, prec, printers, sym, tff
 
 EXPLANATION = (
     "TAB-MAP: every token table of formatting/fol/sigma_0/tptp.rs is extracted (Display impls evaluated to write-templates) and compared with the "
@@ -369,4 +369,11 @@ def rule_one_constant_per_symbol(ctx):
     rule_problem_rename(ctx)
 
 
-RULES = [rule_tokens, rule_sorts, rule_comparison, rule_prec, rule_pre1, rule_one_constant_per_symbol]
+def rule_collected_sorts(ctx):
+    """the declarations of a problem are generated from the collectors: a placeholder / variable occurrence must be collected at the sort its
+    occurrence is printed at (suffix _g / _i / _s), else the file declares one constant and uses another"""
+    collect.check_function_constant_leaves(ctx, "COLLECT", ctx.facts)
+    collect.check_variable_leaves(ctx, "COLLECT", ctx.facts)
+
+
+RULES = [rule_tokens, rule_sorts, rule_comparison, rule_prec, rule_pre1, rule_one_constant_per_symbol, rule_collected_sorts]
